@@ -69,10 +69,16 @@ structure CallIn where
   chars : Int      -- len(message)
   tell : Int       -- size of the file in bytes
 
-/-- `while self._limit <= record_time: self._limit = self._step_forward(self._limit)` -/
+/-- `while self._limit <= record_time: self._limit = self._step_forward(self._limit)`.
+A step that does not advance would make the real loop run forever; the model then stops at once
+(so that the driver stays total).  `C07.catch_up_terminates` shows that this branch is never taken
+for a rotation accepted by `_make_rotation_function`. -/
 def catchUp (f : Int → Int) : Nat → Int → Int → Int
   | 0, l, _ => l
-  | n + 1, l, r => if catchUpCond l r then catchUp f n (f l) r else l
+  | n + 1, l, r =>
+    if catchUpCond l r then
+      (if f l ≤ l then f l else catchUp f n (f l) r)
+    else l
 
 /-- iterations that always suffice when the step is strictly increasing (`catchUp_terminates`) -/
 def catchUpFuel (l r : Int) : Nat := (r - l + 1).toNat
